@@ -522,6 +522,8 @@ mod imp {
                         let kind = if p >= 900_000 { "KFn" } else { kind_of(vm, p) };
                         self.kinds_seen.insert(kind);
                         let sids: Vec<String> = (0..body.len()).filter_map(|k| sid_of.get(&(name.clone(), k)).map(|x| x.to_string())).collect();
+                        // a heap index that held another object before: a collection freed it in between
+                        if self.known_ptrs.contains(&p) { ev.push(format!("Collect [{}]", p)); }
                         ev.push(format!("Alloc {} (mkObj {} {} [{}])", p, kind, tag, sids.join("; ")));
                         let gid = self.names.id(name);
                         ev.push(format!("SetGlobal {} (GPtr {})", gid, p));
@@ -538,6 +540,7 @@ mod imp {
                                 let p = match v { MVal::Ptr(p) => p, _ => { unknown_ptr += 1; unknown_ptr } };
                                 let kind = if p >= 900_000 { "KClo" } else { kind_of(vm, p) };
                                 self.kinds_seen.insert(kind);
+                                if self.known_ptrs.contains(&p) { ev.push(format!("Collect [{}]", p)); }
                                 ev.push(format!("Alloc {} (mkObj {} {} [])", p, kind, t));
                                 self.known_ptrs.insert(p);
                                 MVal::Ptr(p)
@@ -807,7 +810,9 @@ fn main() {
     let handle = std::thread::Builder::new().stack_size(256 << 20).spawn(move || {
         for i in 0..n {
             // 50% REPL sessions, 30% single programs, 20% save/reload
-            let mode = match i % 10 { 0..=4 => "repl", 5..=7 => "unit", _ => "reload" };
+            // above OptimizationLevel::Basic every input is optimised as a whole program: no multi-input sessions there
+            // (the REPL compiles at Basic), single programs and save/reload only
+            let mode = if opt >= 2 { match i % 10 { 0..=5 => "unit", _ => "reload" } } else { match i % 10 { 0..=4 => "repl", 5..=7 => "unit", _ => "reload" } };
             let case_seed = seed.wrapping_mul(1_000_003).wrapping_add(i);
             let o = if i % 7 == 3 { 0 } else { opt };
             let c = imp::run_case(mode, case_seed, o);
